@@ -37,9 +37,9 @@ func newXlat2(pr *Prog, eff *Effects, ctx *Ctx) *Xlat {
 
 type VerifyOpts struct {
 	View       string
+	Lockstep   map[string]bool // non-nil: lockstep (x2 scaling) mode; the set of functions verified that way
 	TrackPanic bool
 	NoSafety   bool
-	Lockstep   bool
 }
 
 func VerifyFunc(pr *Prog, eff *Effects, fi *FuncInfo, opts VerifyOpts) (rep *FuncReport) {
@@ -49,6 +49,10 @@ func VerifyFunc(pr *Prog, eff *Effects, fi *FuncInfo, opts VerifyOpts) (rep *Fun
 	x.trackPanic = opts.TrackPanic
 	x.noSafety = opts.NoSafety
 	x.view = opts.View
+	if opts.Lockstep != nil {
+		x.lock = &lockCtx{coupled: map[string]bool{}, funcs: opts.Lockstep, two: RealLit(2)}
+		x.noSafety = true
+	}
 	rep = &FuncReport{Key: fi.Key}
 	defer func() {
 		if r := recover(); r != nil {
@@ -210,6 +214,9 @@ func VerifyFunc(pr *Prog, eff *Effects, fi *FuncInfo, opts VerifyOpts) (rep *Fun
 	if spec != nil {
 		env := x.newSpecEnvFrame(st, fr, fnBody.Lbrace+1)
 		for _, r := range spec.Requires {
+			if !r.inView(x.view) {
+				continue
+			}
 			st.assume(env.evalBool(r.Expr))
 		}
 		// vacuity guard: the preconditions must be satisfiable
@@ -312,6 +319,18 @@ func VerifyFunc(pr *Prog, eff *Effects, fi *FuncInfo, opts VerifyOpts) (rep *Fun
 		f2, p2 := procDefer(pan, true, i)
 		fin = x.merge(f1, f2)
 		pan = x.merge(p1, p2)
+	}
+	if x.lock != nil && fin != nil && !fin.dead() {
+		keys := x.lockAllKeys(fin)
+		keys = append(keys, fr.results...)
+		for _, p := range ps {
+			if pl, ok := fr.refParams[p]; ok {
+				if pv, ok := pl.(PVar); ok {
+					keys = append(keys, pv.key)
+				}
+			}
+		}
+		x.lockState(fin, keys, "exit", fi.Decl.Pos())
 	}
 	if spec != nil {
 		if fin != nil && !fin.dead() {
